@@ -143,6 +143,13 @@ where
                 if c.no_serialize { "de_only" } else { "de" },
                 op
             ));
+            // the generated `ResponseData` inside the envelope type of the runtime crate
+            src.push_str(&format!(
+                "            (\"env\", {:?}) => super::{}::<graphql_client::Response<<{} as graphql_client::GraphQLQuery>::ResponseData>>(input),\n",
+                op,
+                if c.no_serialize { "de_only" } else { "de" },
+                op
+            ));
             src.push_str(&format!("            (\"vars\", {:?}) => super::vars::<{}>(input),\n", op, op));
             src.push_str(&format!(
                 "            (\"consts\", {:?}) => format!(\"ok {{}}\", serde_json::to_string(&({}::OPERATION_NAME, {}::QUERY)).unwrap()),\n",
